@@ -7,19 +7,25 @@ import (
 	"sync"
 	"time"
 
+	"github.com/lindb/lindb/internal/verifhook"
 	"github.com/lindb/lindb/pkg/queue"
 	"github.com/lindb/lindb/pkg/queue/page"
 )
 
 // The page-factory seam (queue.VerifC05SetPageFactory, /repo/pkg/queue/zz_verif_c05.go, build tag
-// verif): every meta page of a consumer group (path .../cg/<name>) is wrapped so that one chosen
-// PutUint64 can be parked. Pages of the queue itself are not wrapped.
+// verif): every meta page of a consumer group (path .../cg/<name>) and the queue's meta page
+// (.../meta) are wrapped so that a chosen PutUint64 or a chosen msync (Sync) can be parked, and the
+// msync can be made to fail. Data and index pages of the queue are not wrapped.
 
 var errInjected = errors.New("injected: too many open files")
+var errMsync = errors.New("injected: msync: input/output error")
 
 type gate struct {
 	match   string // substring of the page factory's path
-	skip    int    // number of matching stores that pass before one is parked
+	skip    int    // number of matching stores (msyncs) that pass before one is parked
+	onSync  bool   // the gate watches MappedPage.Sync (msync) instead of PutUint64
+	noPark  bool   // (msync gates) do not park, only inject the failure
+	fail    error  // (msync gates) what the chosen Sync returns; the stores stay in the mapped page
 	hit     chan struct{}
 	release chan struct{}
 	once    sync.Once
@@ -29,7 +35,8 @@ type gate struct {
 var (
 	gateMu     sync.Mutex
 	gates      []*gate // armed gates; several may hold a parked store at the same time
-	faultMatch string // one-shot: the next page factory whose path matches fails to open
+	yieldG     *gate   // armed yield point (match = the id given to verifhook.Yield)
+	faultMatch string  // one-shot: the next page factory whose path matches fails to open
 	faultFired bool
 )
 
@@ -60,6 +67,45 @@ func armGateN(match string, skip int) *gate {
 	return g
 }
 
+// armSyncGate arms a gate on the msync (MappedPage.Sync) of a page under a matching path: the
+// (skip+1)-th one is parked (unless noPark) and returns fail (nil = the real result).
+func armSyncGate(match string, skip int, noPark bool, fail error) *gate {
+	g := &gate{match: match, skip: skip, onSync: true, noPark: noPark, fail: fail, hit: make(chan struct{}, 1), release: make(chan struct{})}
+	gateMu.Lock()
+	gates = append(gates, g)
+	gateMu.Unlock()
+	return g
+}
+
+// armYield arms the one yield gate: the next verifhook.Yield(id) parks its goroutine.
+func armYield(id string) *gate {
+	g := &gate{match: id, hit: make(chan struct{}, 1), release: make(chan struct{})}
+	gateMu.Lock()
+	yieldG = g
+	gateMu.Unlock()
+	return g
+}
+
+func disarmYield() {
+	gateMu.Lock()
+	yieldG = nil
+	gateMu.Unlock()
+}
+
+// yieldHook is installed as the verifhook scheduler for the duration of the area's run.
+func yieldHook(id string) {
+	gateMu.Lock()
+	g := yieldG
+	if g == nil || g.fired || g.match != id {
+		gateMu.Unlock()
+		return
+	}
+	g.fired = true
+	gateMu.Unlock()
+	g.hit <- struct{}{}
+	<-g.release
+}
+
 // disarmGate disarms every gate (parked stores must have been released before).
 func disarmGate() {
 	gateMu.Lock()
@@ -75,6 +121,24 @@ func (g *gate) waitHit(d time.Duration) bool {
 	select {
 	case <-g.hit:
 		return true
+	case <-time.After(d):
+		return false
+	}
+}
+
+// waitHitOr is waitHit that gives up as soon as done is closed (the call returned without reaching
+// the gate: a source in which the store / msync is not performed must not cost the full timeout).
+func (g *gate) waitHitOr(done <-chan struct{}, d time.Duration) bool {
+	select {
+	case <-g.hit:
+		return true
+	case <-done:
+		select {
+		case <-g.hit:
+			return true
+		default:
+			return false
+		}
 	case <-time.After(d):
 		return false
 	}
@@ -111,7 +175,7 @@ func (p *gatedPage) PutUint64(value uint64, offset int) {
 	var g *gate
 	park := false
 	for _, c := range gates {
-		if c.fired || !strings.Contains(p.path, c.match) {
+		if c.fired || c.onSync || !strings.Contains(p.path, c.match) {
 			continue
 		}
 		// the first armed gate that matches sees the store: it lets it pass or parks it
@@ -130,8 +194,46 @@ func (p *gatedPage) PutUint64(value uint64, offset int) {
 	p.MappedPage.PutUint64(value, offset)
 }
 
+// Sync: an armed msync gate parks the call after the stores have landed in the mapped page and / or
+// makes it fail. The real msync is still performed (what a failed msync leaves on disk is C05's
+// subject; the mapped page keeps the stores either way).
+func (p *gatedPage) Sync() error {
+	gateMu.Lock()
+	var g *gate
+	for _, c := range gates {
+		if c.fired || !c.onSync || !strings.Contains(p.path, c.match) {
+			continue
+		}
+		if c.skip > 0 {
+			c.skip--
+		} else {
+			c.fired, g = true, c
+		}
+		break
+	}
+	gateMu.Unlock()
+	if g != nil && !g.noPark {
+		g.hit <- struct{}{}
+		<-g.release
+	}
+	err := p.MappedPage.Sync()
+	if g != nil && g.fail != nil {
+		return g.fail
+	}
+	return err
+}
+
 // installSeam wraps the meta page factories of consumer groups; returns the restore function.
 func installSeam() func() {
+	verifhook.Set(yieldHook)
+	restore := installPageSeam()
+	return func() {
+		restore()
+		verifhook.Set(nil)
+	}
+}
+
+func installPageSeam() func() {
 	return queue.VerifC05SetPageFactory(func(path string, pageSize int) (page.Factory, error) {
 		gateMu.Lock()
 		if faultMatch != "" && strings.Contains(path+"/", faultMatch) {
@@ -141,7 +243,9 @@ func installSeam() func() {
 		}
 		gateMu.Unlock()
 		f, err := page.NewFactory(path, pageSize)
-		if err != nil || !strings.Contains(path, "/cg/") {
+		// consumer-group meta pages (…/cg/<g>) and the queue's own meta page (…/meta); data and index
+		// pages are not wrapped
+		if err != nil || !(strings.Contains(path, "/cg/") || strings.HasSuffix(path, "/meta")) {
 			return f, err
 		}
 		return &gatedFactory{Factory: f, path: path + "/"}, nil
